@@ -1,7 +1,60 @@
-(* C14 — pipeline placeholder; replaced by the real statements *)
-From Gdsl.Model Require Import Base NodeOps.
-From Gdsl.Proofs Require Import NodeLemmas.
+(* C14 — Construction macros build exactly the graph they denote.
+   Model: coq/model/Macro.v: all four signature forms of digraph!/ungraph!/sync_digraph!/sync_ungraph! transcribe to the same
+   operation list — insert Node::new(key, value) per listed node, then for every listed edge panic naming the first of
+   (source, target) not in the graph, else connect — i.e. macro_build = rebuild on the listed nodes and edges (missing node /
+   edge values are `()`). Macro EXPANSION is rustc's; the correspondence compiles generated programs against the tree. *)
+From Gdsl.Model Require Import Spec Serde Macro.
+From Gdsl.Proofs Require Import SerdeProof MacroProof.
 
-Theorem C14_placeholder_to_nil : forall (E : Type) v, to_ v (@nil (nat * E)) = [].
-Proof. exact to_nil. Qed.
-Print Assumptions C14_placeholder_to_nil.
+(* distinct listed keys, every edge key listed: the result has exactly the listed nodes with the listed values and each node's edges are exactly the listed ones in listed order; the mirror invariant holds *)
+Theorem c14_macro_denotes :
+  forall (K V E : Type) (keqb : K -> K -> bool),
+       KeqbSpec keqb ->
+       forall items : list (item K V E),
+       NoDup (map (fun it : item K V E => fst (item_node it)) items) ->
+       (forall (s t : K) (e : E),
+        In (s, t, e) (flat_map (item_edges (E:=E)) items) ->
+        In t (map (fun it : item K V E => fst (item_node it)) items)) ->
+       exists (h : heap K V E) (g : graph K),
+         macro_build keqb items = MOk h g /\
+         Inv h /\
+         GraphOK h g /\
+         (forall k : K,
+          g_contains keqb g k = true <-> In k (map (fun it : item K V E => fst (item_node it)) items)) /\
+         (forall it : item K V E,
+          In it items ->
+          exists u : nat,
+            g_get keqb g (fst (item_node it)) = Some u /\
+            valof h u = Some (snd (item_node it)) /\
+            map (fun p : nat * E => (keyof h (fst p), snd p)) (outs h u) =
+            map (fun te : K * E => (Some (fst te), snd te)) (snd it)).
+Proof. exact macro_denotes. Qed.
+Print Assumptions c14_macro_denotes.
+
+(* the macro panics exactly when an edge names an unlisted key, naming the first such key in listed order (source before target) — never a partial graph *)
+Theorem c14_macro_panics_first_missing :
+  forall (K V E : Type) (keqb : K -> K -> bool),
+       KeqbSpec keqb ->
+       forall (items : list (item K V E)) (k : K),
+       macro_build keqb items = MPanic V E k <->
+       (exists (es1 : list (K * K * E)) (s t : K) (e : E) (es2 : list (K * K * E)),
+          flat_map (item_edges (E:=E)) items = es1 ++ (s, t, e) :: es2 /\
+          (forall (s' t' : K) (e' : E),
+           In (s', t', e') es1 ->
+           In s' (map (fun it : item K V E => fst (item_node it)) items) /\
+           In t' (map (fun it : item K V E => fst (item_node it)) items)) /\
+          (~ In s (map (fun it : item K V E => fst (item_node it)) items) /\ k = s \/
+           In s (map (fun it : item K V E => fst (item_node it)) items) /\
+           ~ In t (map (fun it : item K V E => fst (item_node it)) items) /\ k = t)).
+Proof. exact macro_panics_first_missing. Qed.
+Print Assumptions c14_macro_panics_first_missing.
+
+
+Example c14_nonvacuous :
+  let items : list (item nat nat nat) := [(1, 5, [(2, 7); (2, 8); (1, 9)]); (2, 6, [(1, 3)])] in
+  match macro_build Nat.eqb items with
+  | MOk h g => outs h 0 = [(1, 7); (1, 8); (0, 9)] /\ outs h 1 = [(0, 3)] /\ ins h 0 = [(0, 9); (1, 3)] /\ g = [(1, 0); (2, 1)]
+  | MPanic _ _ _ => False
+  end /\
+  macro_build Nat.eqb [(1, 5, [(2, 7); (8, 1)]); (2, 0, [(7, 3)])] = MPanic nat nat 8.
+Proof. vm_compute. auto. Qed.
